@@ -83,7 +83,9 @@ def generate(seed_: int, run: int, info: dict) -> dict:
         j, partner, lo, hi = plan[run]
         lanes = core.hash_configs(seed_, run)
         cfg = next(c for c in lanes if c.startswith("HU")) if info["families"][j].startswith("str:") else lanes[0]
-        return sweep_workload(cfg, j, "user", rng.randrange(lo, hi), partner, prefill=True)
+        workload = sweep_workload(cfg, j, "user", rng.randrange(lo, hi), partner, prefill=True)
+        workload["plan"] = True
+        return workload
     subset: list[int] = []
     if rng.random() < 0.75:
         fam = rng.choice(sorted(families))
@@ -418,7 +420,8 @@ class Context:
             "armed": {"kill": sum(p["knobs"]["kills"] for p in phases),
                       "error": sum(p["knobs"]["errors"] for p in phases)},
             "signature": core.sha([p["events_digest"] for p in out["phases"]])[:20],
-            "sweep": workload.get("sweep"),
+            "sweep": None if workload.get("plan") else workload.get("sweep"),
+            "plan": workload.get("sweep") if workload.get("plan") else None,
             "preempt": workload.get("preempt"),
             "killed_at": [p.get("killed_at") for p in out["phases"] if p.get("killed_at")],
             "listing": [p["listing_digest"][:12] for p in out["phases"]],
@@ -464,6 +467,7 @@ def coverage(records: list[dict], extras: list[dict], options: dict) -> dict:
     for r in sweep_done:
         for k in r["stats"]["killed_at"]:
             sweep_kill_seams[k["seam"]] = sweep_kill_seams.get(k["seam"], 0) + 1
+    plan_done = [r for r in records if r["stats"].get("plan")]
     preempt_total = max((e.get("preempt_items", 0) for e in extras), default=0)
     preempt_done = [r for r in records if r["stats"].get("preempt")]
     return {
@@ -482,6 +486,15 @@ def coverage(records: list[dict], extras: list[dict], options: dict) -> dict:
             "complete": bool(sweep_total) and len(sweep_done) == sweep_total,
             "kills_by_seam": sweep_kill_seams,
             "files_swept": len({(r["stats"]["sweep"][1], r["stats"]["sweep"][2]) for r in sweep_done}),
+        },
+        "directed_plan": {
+            "description": "both tiers, first runs of every batch: for every ordered pair of colliding keys the partner's "
+                           "entry is written completely, then the writer of the other key is killed at a step drawn from "
+                           "one stratum of its file (8 strata for pairs of equal entry size, 2 otherwise), then a "
+                           "fault-free reader and verification",
+            "executed": len(plan_done),
+            "kills_fired": sum(1 for r in plan_done if r["stats"]["killed_at"]),
+            "distinct_killed_writers": len({r["stats"]["plan"][1] for r in plan_done}),
         },
         "evaluations": len(records),
         "distinct_nontrivial": len(nontrivial),
